@@ -26,6 +26,10 @@ type Entry struct {
 	// 2: the samples are written through a Slice(0,n) alias and the never-written
 	// parent header is converted.
 	NewBlockFix func(fix int) BlockFn
+	// NewBlockShape is NewBlockFix with buffers of the given channel count (the n
+	// values occupy the first n interleaved positions of ceil(n/channels) frames;
+	// the rest of the last frame holds zeros and is ignored).
+	NewBlockShape func(fix, channels int) BlockFn
 	// Prepared allocates typed buffers (C channels, sFrames / dFrames long, the
 	// destination optionally a window with spare capacity) and returns a closure
 	// that only performs the conversion - for allocation measurements.
@@ -105,7 +109,11 @@ func mk[S, D signal.SignalTypes](fn, s, d string, conv func(*signal.Buffer[S], *
 	sk, dk := e.S.Kind, e.D.Kind
 	sHalf, dHalf := uint64(1)<<(e.S.Bits-1), uint64(1)<<(e.D.Bits-1)
 	e.NewBlock = func() BlockFn { return e.NewBlockFix(0) }
-	e.NewBlockFix = func(fix int) BlockFn {
+	e.NewBlockFix = func(fix int) BlockFn { return e.NewBlockShape(fix, 1) }
+	e.NewBlockShape = func(fix, channels int) BlockFn {
+		if channels < 1 {
+			channels = 1
+		}
 		var src, csrc *signal.Buffer[S] // src: written through; csrc: converted
 		var dst *signal.Buffer[D]
 		size := -1
@@ -115,14 +123,23 @@ func mk[S, D signal.SignalTypes](fn, s, d string, conv func(*signal.Buffer[S], *
 				n = len(inF)
 			}
 			if n != size || fix != 0 {
-				a := signal.Allocator{Channels: 1, Length: n, Capacity: n}
+				fr := (n + channels - 1) / channels
+				a := signal.Allocator{Channels: channels, Length: fr, Capacity: fr}
+				if fix == 0 && n%channels != 0 {
+					// both buffers end in a partial last frame holding exactly the n values
+					a.Length = n / channels
+				}
 				base := signal.Alloc[S](a)
 				src, csrc, dst, size = base, base, signal.Alloc[D](a), n
+				for base.Len() < n && a.Length < fr {
+					base.AppendSample(0)
+					dst.AppendSample(D(1)) // stale content a skipped conversion would leave behind
+				}
 				switch fix {
 				case 1:
-					csrc = base.Slice(0, n)
+					csrc = base.Slice(0, fr)
 				case 2:
-					src = base.Slice(0, n)
+					src = base.Slice(0, fr)
 				}
 			}
 			switch sk {
